@@ -26,7 +26,7 @@ CHECKS = {
                 "with a complete reference path; distinct = hash of (dictionary description, user lexicon, mapping, sentence, options).",
         "required_buckets": ["connector_matrix", "connector_raw", "connector_dual", "with_user_lexicon", "with_id_mapping",
                              "astral_in_sentence", "inner_gap_observed", "leading_gap_observed", "trailing_gap_observed",
-                             "unknown_token_observed", "user_token_observed", "id_equal_to_dimension_rejected_by_builder", "two_id_mappings_then_user_lexicon", "user_lexicon_then_two_id_mappings"],
+                             "unknown_token_observed", "user_token_observed", "id_equal_to_dimension_rejected_by_builder", "two_id_mappings_then_user_lexicon", "user_lexicon_then_two_id_mappings", "tokenize_called_twice"],
         "assumptions": ["the reference character table (last covering range line wins, DEFAULT otherwise) is the reading of char.def the property states",
                         "termination is observed up to the per-stage watchdog only"],
     },
@@ -79,7 +79,7 @@ CHECKS = {
                 "of the dictionaries have more than 4096 right ids. TSan (and Miri, thorough) watch the thread workload. "
                 "Non-trivial = a history, or a thread workload in which calls of different threads overlapped; distinct by content hash.",
         "required_buckets": ["tokenize_repeated", "shorter_after_longer", "empty_sentence_in_history", "non_empty_after_empty",
-                             "update_counts_in_history", "threads_overlapped", "read_between_reset_and_tokenize", "more_than_4096_right_ids", "long_thread_workload"],
+                             "update_counts_in_history", "threads_overlapped", "read_between_reset_and_tokenize", "more_than_4096_right_ids", "long_thread_workload", "new_worker_after_dropped_worker_is_fresh", "two_sentences_of_equal_length"],
         "assumptions": ["interleavings are sampled (OS scheduler + seeded yields), not enumerated",
                         "Tokenizer: Send + Sync and Dictionary: Send + Sync are asserted at compile time by the harness"],
     },
@@ -153,7 +153,7 @@ CHECKS = {
                 "stage): readable, re-written byte-identically, token-for-token the same results. Distinct = hash of (image, later operations).",
         "required_buckets": ["connector_matrix", "connector_raw", "connector_dual", "with_user_lexicon", "with_id_mapping", "later_load_user",
                              "later_clear", "later_map", "later_write_read", "failing_writer_yields_err_and_prefix", "image_read_through_chunked_reader",
-                             "foreign_image_read_rewritten_and_tokenized_identically", "image_followed_by_user_lexicon_in_one_stream", "char_def_assigns_U+0000"],
+                             "foreign_image_read_rewritten_and_tokenized_identically", "image_followed_by_user_lexicon_in_one_stream", "char_def_assigns_U+0000", "feature_string_of_65536_bytes_or_more"],
         "assumptions": ["images are compared between a portable and an AVX2 build made by the same compiler on this machine"],
     },
     "C07": {
@@ -215,7 +215,7 @@ CHECKS = {
                 "the rows with that surface (row index, ids, cost). Distinct = hash of the CSV text.",
         "required_buckets": ["homographs", "empty_surface_row_skipped", "no_final_newline", "file_ends_after_fourth_comma",
                              "surface_with_comma_or_quote", "quoted_feature_cell", "empty_feature", "system_lexicon", "user_lexicon", "same_rows_as_system_and_user_lexicon", "256_or_more_homographs_of_one_surface"],
-        "assumptions": ["well-formed = \\n line ends, no BOM, no NUL, no line break inside a quoted cell, fields < 4096 bytes",
+        "assumptions": ["well-formed = \\n line ends, no BOM, no NUL, no line feed inside a quoted cell (a carriage return there is data), fields < 4096 bytes",
                         "a lexicon in which no row has a surface may be rejected with an error"],
     },
     "C13": {
@@ -292,7 +292,7 @@ CHECKS = {
                 "Distinct = hash of the generated files.",
         "required_buckets": ["training_succeeded", "generated_twice", "in_memory_vs_reloaded_compared", "second_round_trip_compared", "model_read_through_chunked_reader",
                              "user_lexicon_added_after_a_generation", "user_lexicon_added_before_first_generation",
-                             "cli_pipeline_train_dictgen_twice", "cli_files_equal_in_process_files", "seed_surface_with_line_break", "model_and_user_lexicon_from_one_stream", "generated_twice_with_user_lexicon"],
+                             "cli_pipeline_train_dictgen_twice", "cli_files_equal_in_process_files", "seed_surface_with_line_break", "model_and_user_lexicon_from_one_stream", "generated_twice_with_user_lexicon", "neighbouring_rows_sharing_a_long_feature_prefix"],
         "assumptions": ["user entries are not part of the stored model (the CLI re-reads them), so user.csv is compared only when both sides read the same user lexicon"],
     },
     "C16": {
@@ -305,7 +305,7 @@ CHECKS = {
                 "connection cost of EVERY id pair incl. row/column 0 is compared through the cost accessor: |bigram - matrix| <= K+1 "
                 "(K = number of BIGRAM templates), same dimensions, lexicon accepted by all three. Distinct = hash of (matrix.def, bigram.cost).",
         "required_buckets": ["training_succeeded", "raw_compared", "dual_compared", "pair_with_id_0_compared", "non_zero_cell_compared",
-                             "fewer_than_8_templates", "8_or_more_templates"],
+                             "fewer_than_8_templates", "8_or_more_templates", "bigram_feature_string_longer_than_4096_bytes"],
         "assumptions": [],
     },
     "C17": {
@@ -339,10 +339,12 @@ CHECKS = {
                 "extractor vs an independent expander: suppression, equal strings <-> equal ids per side, final tables identical. One "
                 "third (dictionary level): a model is trained and, for every seed and unknown word, its %R tuple (right rewrite rules) "
                 "and %L tuple (left rewrite rules) are expanded independently: equal tuples => equal left/right id in lex.csv/unk.def, "
-                "and every cell of the id's row in bigram.left/right is '*' or the word's expansion. Distinct = hash of inputs / files.",
+                "and every cell of the id's row in bigram.left/right is '*' or the word's expansion. Stage cli: the REAL `train` and `dictgen` "
+                "binaries (with --user-lexicon-in and --conn-id-info-out) must emit the files the in-process generation emits. "
+                "Distinct = hash of inputs / files.",
         "required_buckets": ["optional_reference_suppressed_template", "string_seen_again_same_id", "short_feature_row", "training_succeeded",
                              "words_sharing_a_connection_class", "listed_feature_equals_expansion", "feature_dropped_by_training_shown_as_star",
-                             "with_left_or_right_rewrite_rules", "model_reloaded_before_generation", "user_word_with_trained_ids_checked"],
+                             "with_left_or_right_rewrite_rules", "model_reloaded_before_generation", "user_word_with_trained_ids_checked", "cli_pipeline_with_user_lexicon_and_conn_id_info", "cli_files_equal_in_process_files"],
         "assumptions": ["user-lexicon words are excluded from the `equal tuples share an id` clause (features pruned by training are re-interned for them)"],
     },
     "C19": {
@@ -356,7 +358,7 @@ CHECKS = {
                 "dictionary (any connector kind, -S/-M options) with 33 input lines and parses their stdout as a corpus: tokens = the "
                 "tokens obtained in-process for the same lines. Distinct = hash of the corpus text / CLI output.",
         "required_buckets": ["sentence_without_tokens_dropped", "token_whose_surface_is_EOS", "malformed_line_rejected", "non_utf8_line_rejected",
-                             "tokenizer_cli_output_parsed_as_corpus", "token_of_65536_bytes_or_more", "first_line_starts_with_U+FEFF", "tokenizer_output_accepted_by_trainer"],
+                             "tokenizer_cli_output_parsed_as_corpus", "token_of_65536_bytes_or_more", "first_line_starts_with_U+FEFF", "tokenizer_output_accepted_by_trainer", "cli_input_without_final_line_feed"],
         "assumptions": ["tokenizer inputs and dictionary features contain no tab or line break"],
     },
     "C20": {
